@@ -120,3 +120,16 @@ def _c20_stray(v, rec):
     if v["clause"].startswith("exception:") and f.get("exc_type") == "KeyError":
         return any("tabularmdp.py" in w or "tabularpomdp.py" in w for w in f.get("where", [])) and f.get("exc_msg") in outside
     return False
+
+
+@mechanism("C09-fsc-evaluation-ignores-absorbing-states")
+def _c09_abs(v, rec):
+    """stochastic_fsc_policy_evaluation_exact (and so the values reported by gradient ascent / bounded
+    policy iteration) treat absorbing states as ordinary states: the POMDP has an absorbing state with
+    live transitions or rewards, the reported number differs from the reference with episodes ending at
+    absorbing states, AND equals the reference computed on the raw dynamics."""
+    f = v.get("facts", {})
+    c = v["clause"]
+    if not (c.startswith("evaluator!=expected-return") or c.endswith(":reported-value!=exact-evaluation-of-returned-controller")):
+        return False
+    return bool(f.get("live_absorbing")) and bool(f.get("equals_reference_without_absorption"))
